@@ -323,7 +323,7 @@ func cmdVariant(args []string) int {
 		b, _ := json.Marshal(out)
 		fmt.Println(string(b))
 	}()
-	if spec == nil {
+	if spec == nil && cf.prop != "all" {
 		out.Infra = "unknown property"
 		return 2
 	}
@@ -336,6 +336,24 @@ func cmdVariant(args []string) int {
 	if err != nil {
 		out.Infra = err.Error()
 		return 2
+	}
+	if cf.prop == "all" {
+		// exploratory use: every property against one variant, loaded once
+		var ids []string
+		for id := range registry {
+			ids = append(ids, id)
+		}
+		sort.Strings(ids)
+		for _, id := range ids {
+			r := runProperty(p, registry[id], loadFindings(filepath.Join(cf.verif, "known_findings.jsonl")))
+			if r.InfraErr != "" {
+				out.Infra += id + ": " + r.InfraErr + "; "
+			}
+			for _, o := range r.Violations {
+				out.Keys = append(out.Keys, o.Key)
+			}
+		}
+		return 0
 	}
 	r := runProperty(p, spec, loadFindings(filepath.Join(cf.verif, "known_findings.jsonl")))
 	if r.InfraErr != "" {
